@@ -678,13 +678,13 @@ class SetUnion(Set):
             has the same subsets as this set, ``False`` otherwise.
         """
         return (type(self) == type(other) and
-                all(set_ in other for set_ in self) and
-                all(set_ in self for set_ in other))
+                all(set_ in other.sets for set_ in self.sets) and
+                all(set_ in self.sets for set_ in other.sets))
 
     def __hash__(self):
         """Return ``hash(self)``."""
         # Use `set` to allow permutations
-        return hash((type(self), set(self.sets)))
+        return hash((type(self), frozenset(self.sets)))
 
     def element(self, inp=None):
         """Create a new element.
@@ -801,13 +801,13 @@ class SetIntersection(Set):
             has the same subsets as this set, ``False`` otherwise.
         """
         return (type(self) == type(other) and
-                all(set_ in other for set_ in self) and
-                all(set_ in self for set_ in other))
+                all(set_ in other.sets for set_ in self.sets) and
+                all(set_ in self.sets for set_ in other.sets))
 
     def __hash__(self):
         """Return ``hash(self)``."""
         # Use `set` to allow permutations
-        return hash((type(self), set(self.sets)))
+        return hash((type(self), frozenset(self.sets)))
 
     def __len__(self):
         """Return ``len(self)``."""
@@ -903,7 +903,7 @@ class FiniteSet(Set):
 
     def __hash__(self):
         """Return ``hash(self)``."""
-        return hash((type(self), set(self.elements)))
+        return hash((type(self), frozenset(self.elements)))
 
     def element(self, inp=None):
         """Create a new element.
